@@ -39,6 +39,11 @@ type CrashRound struct {
 type CrashCase struct {
 	Program Program      `json:"program"`
 	Rounds  []CrashRound `json:"rounds"`
+	// ChildVerifies: the state left by round r is observed by the CHILD of round
+	// r+1 right after it opened (recovered) the directory and before it writes, so
+	// that recovery and further writes happen in one process (a parent open in
+	// between would hand the next process an already repaired directory).
+	ChildVerifies bool `json:"child_verifies,omitempty"`
 }
 
 // Failure is an oracle failure with its signature.
@@ -59,6 +64,11 @@ func VerifyState(dir string, p *Program, states []Model, lower, upper int, site 
 	}
 	snap := Observe(e, p)
 	_ = e.Close()
+	return MatchSnapshot(snap, p, states, lower, upper, site)
+}
+
+// MatchSnapshot compares an observed state with the candidate prefix states.
+func MatchSnapshot(snap *Snapshot, p *Program, states []Model, lower, upper int, site string) (int, *Failure) {
 	first := ""
 	for q := upper; q >= lower; q-- {
 		d := snap.EqualModel(states[q], p)
@@ -104,6 +114,12 @@ func RunCrashCase(c *CrashCase, replay bool, filter SiteFilter) (*Failure, []str
 	var classes []string
 	base := Model{}
 	from := 0
+	type pendingVerify struct {
+		states       []Model
+		lower, upper int
+		site, msg    string
+	}
+	var pending *pendingVerify
 	for ri := range c.Rounds {
 		rd := &c.Rounds[ri]
 		to := rd.To
@@ -113,18 +129,11 @@ func RunCrashCase(c *CrashCase, replay bool, filter SiteFilter) (*Failure, []str
 		if to < from {
 			to = from
 		}
-		// prefix states of this round's segment
-		states := []Model{base.Clone()}
-		var writeIdx []int
-		cur := base.Clone()
-		for i := from; i < to; i++ {
-			if p.Steps[i].IsWrite() {
-				cur.Apply(p, p.Steps[i])
-				states = append(states, cur.Clone())
-				writeIdx = append(writeIdx, i)
-			}
-		}
 		spec := ChildSpec{Dir: dir, Program: p, From: from, To: to}
+		if pending != nil {
+			spec.SnapOut = fmt.Sprintf("%s/snap-r%d.json", root, ri)
+			_ = os.Remove(spec.SnapOut)
+		}
 		site := "clean-close"
 		if !rd.Clean {
 			if !replay || rd.Site == "" {
@@ -139,6 +148,9 @@ func RunCrashCase(c *CrashCase, replay bool, filter SiteFilter) (*Failure, []str
 					_ = os.RemoveAll(pdir)
 				}
 				prof, err := ProfileRound(root, dir, spec)
+				if spec.SnapOut != "" {
+					_ = os.Remove(spec.SnapOut) // the profile child wrote one too; only the real child's counts
+				}
 				if err != nil {
 					return &Failure{"child-error@profile", err.Error()}, classes
 				}
@@ -164,6 +176,34 @@ func RunCrashCase(c *CrashCase, replay bool, filter SiteFilter) (*Failure, []str
 		res, err := RunChild(spec, root, fmt.Sprintf("r%d", ri))
 		if err != nil {
 			return &Failure{"child-error@" + site, err.Error()}, classes
+		}
+		if pending != nil {
+			// the previous round's outcome as seen by this child right after recovery
+			snap, serr := LoadSnapshot(spec.SnapOut)
+			if serr != nil {
+				// the child died before it could observe (crash point inside open): the
+				// previous round can no longer be judged on its own; abandon the case
+				count("child_snapshot_missing", 1)
+				return nil, append(classes, "abandoned:child_snapshot_missing")
+			}
+			q, f := MatchSnapshot(snap, p, pending.states, pending.lower, pending.upper, pending.site)
+			if f != nil {
+				f.Sig += "(observed-by-next-process)"
+				f.Msg = pending.msg + f.Msg
+				return f, classes
+			}
+			base = pending.states[q]
+			pending = nil
+			classes = append(classes, "round_observed_by_next_process")
+		}
+		// prefix states of this round's segment
+		states := []Model{base.Clone()}
+		cur := base.Clone()
+		for i := from; i < to; i++ {
+			if p.Steps[i].IsWrite() {
+				cur.Apply(p, p.Steps[i])
+				states = append(states, cur.Clone())
+			}
 		}
 		if res.WriteError != "" {
 			count("rounds_with_write_error", 1)
@@ -199,17 +239,19 @@ func RunCrashCase(c *CrashCase, replay bool, filter SiteFilter) (*Failure, []str
 		} else {
 			classes = append(classes, "clean_round")
 		}
+		msg := fmt.Sprintf("round %d steps [%d,%d) acked=%d: ", ri, from, to, acked)
+		if c.ChildVerifies && ri < len(c.Rounds)-1 {
+			pending = &pendingVerify{states, lower, upper, site, msg}
+			from = to
+			continue
+		}
 		q, f := VerifyState(dir, p, states, lower, upper, site)
 		if f != nil {
-			f.Msg = fmt.Sprintf("round %d steps [%d,%d) acked=%d: %s", ri, from, to, acked, f.Msg)
+			f.Msg = msg + f.Msg
 			return f, classes
 		}
 		base = states[q]
 		from = to
-		if res.Crashed {
-			// steps of this segment after the crash were never issued; continue with the next segment
-			_ = writeIdx
-		}
 	}
 	// final: open, close cleanly, reopen: exact
 	for k := 0; k < 2; k++ {
